@@ -110,10 +110,10 @@ Definition obj_trim (o : obj) : option (obj * bool) :=
 
 Definition obj_new (kind p1 p2 : Z) : option (obj * bool) :=
   let r := match kind with
-           | 0 => if (p1 <? 8) || (65535 <? p1) then None else let '(s, e) := new_kll (zN p1) in Some (OK s, e)
+           | 0 => if (p1 <? 8) || (65535 <? p1) || (p2 <? 0) || (255 <? p2) then None else let '(s, e) := new_kll (zN p1) in Some (OK s, e)
            | 1 => if (p1 <? 5) || (26 <? p1) || (p2 <? 0) || (3 <? p2) then None
                   else let '(s, e) := new_tup (zN p1) (zN p2) in Some (OT s, e)
-           | 2 => if (p1 <? 0) || (p2 <? 0) then None
+           | 2 => if (p1 <? 0) || (p2 <? 0) || (12 <? p1) || (12 <? p2) then None
                   else match new_fim (zN p1) (zN p2) with Some (s, e) => Some (OF s, e) | None => None end
            | _ => None
            end in
@@ -174,34 +174,34 @@ Definition destroy_all (rs : regs) : bool := existsb (fun p => obj_destroy (snd 
 
 Definition arg (l : line) (i : nat) : Z := nth i l 0.
 
-Definition step (rs : regs) (o e : line) : regs * outline :=
-  let a1 := arg o 1 in let a2 := arg o 2 in let a3 := arg o 3 in let a4 := arg o 4 in
-  match arg o 0 with
-  | 1 =>   (* new r kind p1 p2 *)
+Definition op_new (rs : regs) (a1 a2 a3 a4 : Z) (e : line) : regs * outline :=   (* new r kind p1 p2 *)
       match reg_get rs a1 with
       | Some _ => refuse rs false
       | None => match obj_new a2 a3 a4 with
                 | Some (ob, bad) => done (reg_set rs a1 ob) a1 bad
                 | None => refuse rs false
                 end
-      end
-  | 2 =>   (* update r v w mv *)
+      end.
+
+Definition op_update (rs : regs) (a1 a2 a3 a4 : Z) (e : line) : regs * outline :=   (* update r v w mv *)
       match reg_get rs a1 with
       | None => refuse rs false
       | Some ob => match obj_update ob a2 a3 e with
                    | UDone ob' bad => done (reg_set rs a1 ob') a1 bad
                    | URefused ob' bad => refuse (reg_set rs a1 ob') bad
                    end
-      end
-  | 3 =>   (* r := copy of s *)
+      end.
+
+Definition op_copy (rs : regs) (a1 a2 a3 a4 : Z) (e : line) : regs * outline :=   (* r := copy of s *)
       match reg_get rs a1, reg_get rs a2 with
       | None, Some os => match obj_copy os with
                          | Some (c, bad) => done (reg_set rs a1 c) a1 bad
                          | None => refuse rs false
                          end
       | _, _ => refuse rs false
-      end
-  | 4 =>   (* r := move(s); follow-up on s *)
+      end.
+
+Definition op_move (rs : regs) (a1 a2 a3 a4 : Z) (e : line) : regs * outline :=   (* r := move(s); follow-up on s *)
       match reg_get rs a1, reg_get rs a2 with
       | None, Some os =>
           if follow_ok rs a2 a3 a4 then
@@ -212,16 +212,18 @@ Definition step (rs : regs) (o e : line) : regs * outline :=
             end
           else refuse rs false
       | _, _ => refuse rs false
-      end
-  | 5 =>   (* r = s *)
+      end.
+
+Definition op_assign (rs : regs) (a1 a2 a3 a4 : Z) (e : line) : regs * outline :=   (* r = s *)
       match reg_get rs a1, reg_get rs a2 with
       | Some orr, Some os => match obj_copy_assign orr os with
                              | Some (o', bad) => done (reg_set rs a1 o') a1 bad
                              | None => refuse rs false
                              end
       | _, _ => refuse rs false
-      end
-  | 6 =>   (* r = move(s) (swap); follow-up on s *)
+      end.
+
+Definition op_move_assign (rs : regs) (a1 a2 a3 a4 : Z) (e : line) : regs * outline :=   (* r = move(s) (swap); follow-up on s *)
       match reg_get rs a1, reg_get rs a2 with
       | Some orr, Some os =>
           if a1 =? a2 then done rs a1 false
@@ -234,8 +236,9 @@ Definition step (rs : regs) (o e : line) : regs * outline :=
             end
           else refuse rs false
       | _, _ => refuse rs false
-      end
-  | 7 =>   (* r.merge(s) *)
+      end.
+
+Definition op_merge (rs : regs) (a1 a2 a3 a4 : Z) (e : line) : regs * outline :=   (* r.merge(s) *)
       match reg_get rs a1, reg_get rs a2 with
       | Some orr, Some os =>
           if a1 =? a2 then refuse rs false else
@@ -245,8 +248,9 @@ Definition step (rs : regs) (o e : line) : regs * outline :=
           | None => refuse rs false
           end
       | _, _ => refuse rs false
-      end
-  | 8 =>   (* r.merge(move(s)); follow-up on s *)
+      end.
+
+Definition op_merge_move (rs : regs) (a1 a2 a3 a4 : Z) (e : line) : regs * outline :=   (* r.merge(move(s)); follow-up on s *)
       match reg_get rs a1, reg_get rs a2 with
       | Some orr, Some os =>
           if a1 =? a2 then refuse rs false else
@@ -262,31 +266,36 @@ Definition step (rs : regs) (o e : line) : regs * outline :=
             end
           else refuse rs false
       | _, _ => refuse rs false
-      end
-  | 9 =>
+      end.
+
+Definition op_reset (rs : regs) (a1 a2 a3 a4 : Z) (e : line) : regs * outline :=
       match reg_get rs a1 with
       | Some ob => match obj_reset ob with Some (o', bad) => done (reg_set rs a1 o') a1 bad | None => refuse rs false end
       | None => refuse rs false
-      end
-  | 10 =>
+      end.
+
+Definition op_destroy (rs : regs) (a1 a2 a3 a4 : Z) (e : line) : regs * outline :=
       match reg_get rs a1 with
       | Some ob => let bad := obj_destroy ob in let rs' := reg_del rs a1 in (rs', rline 1 0 rs' bad)
       | None => refuse rs false
-      end
-  | 11 =>  (* { T tmp(r); tmp.query(); } *)
+      end.
+
+Definition op_query_copy (rs : regs) (a1 a2 a3 a4 : Z) (e : line) : regs * outline :=  (* { T tmp(r); tmp.query(); } *)
       match reg_get rs a1 with
       | Some ob => match obj_copy ob with
                    | Some (c, bad) => done rs a1 (bad || obj_destroy c)
                    | None => refuse rs false
                    end
       | None => refuse rs false
-      end
-  | 12 =>
+      end.
+
+Definition op_trim (rs : regs) (a1 a2 a3 a4 : Z) (e : line) : regs * outline :=
       match reg_get rs a1 with
       | Some ob => match obj_trim ob with Some (o', bad) => done (reg_set rs a1 o') a1 bad | None => refuse rs false end
       | None => refuse rs false
-      end
-  | 13 =>  (* a = b = c *)
+      end.
+
+Definition op_chain (rs : regs) (a1 a2 a3 a4 : Z) (e : line) : regs * outline :=  (* a = b = c *)
       match reg_get rs a1, reg_get rs a2, reg_get rs a3 with
       | Some oa, Some ob, Some oc =>
           if negb (kind_of oa =? kind_of ob) || negb (kind_of ob =? kind_of oc) then refuse rs false else
@@ -303,11 +312,28 @@ Definition step (rs : regs) (o e : line) : regs * outline :=
           | None => refuse rs false
           end
       | _, _, _ => refuse rs false
-      end
-  | 99 =>  (* destroy every register: live items, item slots, all slots, live blocks, flag — all 0 when balanced *)
+      end.
+
+Definition op_destroy_all (rs : regs) (a1 a2 a3 a4 : Z) (e : line) : regs * outline :=  (* destroy every register: live items, item slots, all slots, live blocks, flag — all 0 when balanced *)
       let bad := destroy_all rs in
-      ([], ([0; 0; 0; 0; bz bad], []))
-  | _ => (rs, ([-2], []))
-  end.
+      ([], ([0; 0; 0; 0; bz bad], [])).
+
+Definition step (rs : regs) (o e : line) : regs * outline :=
+  let c := arg o 0 in let a1 := arg o 1 in let a2 := arg o 2 in let a3 := arg o 3 in let a4 := arg o 4 in
+  if c =? 1 then op_new rs a1 a2 a3 a4 e else
+  if c =? 2 then op_update rs a1 a2 a3 a4 e else
+  if c =? 3 then op_copy rs a1 a2 a3 a4 e else
+  if c =? 4 then op_move rs a1 a2 a3 a4 e else
+  if c =? 5 then op_assign rs a1 a2 a3 a4 e else
+  if c =? 6 then op_move_assign rs a1 a2 a3 a4 e else
+  if c =? 7 then op_merge rs a1 a2 a3 a4 e else
+  if c =? 8 then op_merge_move rs a1 a2 a3 a4 e else
+  if c =? 9 then op_reset rs a1 a2 a3 a4 e else
+  if c =? 10 then op_destroy rs a1 a2 a3 a4 e else
+  if c =? 11 then op_query_copy rs a1 a2 a3 a4 e else
+  if c =? 12 then op_trim rs a1 a2 a3 a4 e else
+  if c =? 13 then op_chain rs a1 a2 a3 a4 e else
+  if c =? 99 then op_destroy_all rs a1 a2 a3 a4 e else
+  refuse rs false.
 
 Definition run (ops : list opline) : list outline := run_case step [] ops.
